@@ -772,6 +772,21 @@ impl Sink<Bytes> for Substream {
     }
 }
 
+/// Read-only observers for the external model-checking harness.
+#[cfg(litep2p_verif)]
+impl Substream {
+    /// Bytes accepted by the `Sink` interface that have not been handed to the transport yet.
+    pub fn verif_sink_queued_bytes(&self) -> usize {
+        self.pending_out_frames.iter().map(|frame| frame.len()).sum::<usize>()
+            + self.pending_out_frame.as_ref().map_or(0usize, |frame| frame.len())
+    }
+
+    /// Current value of the `Sink` backpressure counter.
+    pub fn verif_sink_backpressure_counter(&self) -> usize {
+        self.pending_out_bytes
+    }
+}
+
 /// Substream set key.
 pub trait SubstreamSetKey: Hash + Unpin + fmt::Debug + PartialEq + Eq + Copy {}
 
